@@ -2,7 +2,7 @@
 EXTENDS Convert, Json
 ShardI == EnvInt("VSHARDI", 0)
 ShardN == EnvInt("VSHARDN", 1)
-FixedTargets == {TDyn, TStr, TNum, TBool, TList(TStr), TList(TNum), TList(TDyn), TSet(TStr), TSet(TNum), TSet(TBool), TMap(TStr), TMap(TNum), TMap(TDyn),
+FixedTargets == {TDyn, TStr, TNum, TBool, TList(TStr), TList(TNum), TList(TDyn), TSet(TDyn), TSet(TStr), TSet(TNum), TSet(TBool), TMap(TStr), TMap(TNum), TMap(TDyn),
    TTup(<<TStr, TStr>>), TTup(<<TDyn, TNum>>), TTup(<<TNum>>), TObj([a |-> TStr]), TObj([a |-> TNum, b |-> TStr]),
    TObjOpt([a |-> TStr, b |-> TNum], <<"b">>), TObjOpt([a |-> TDyn, c |-> TList(TStr)], <<"c">>), TObjOpt([a |-> TBool, b |-> TStr], <<"a", "b">>),
    TList(TList(TNum)), TList(TList(TStr)), TSet(TList(TStr)), TMap(TList(TStr)), TList(TSet(TStr)), TList(TMap(TStr)),
@@ -21,7 +21,10 @@ DynAt(t) == {TDyn} \cup
     [] t.k = "object" -> UNION {{[t EXCEPT !.as[n] = x] : x \in DynAt(t.as[n])} : n \in DOMAIN t.as}
     [] OTHER -> {}
 Targets(t) == FixedTargets \cup {t} \cup DynAt(t)
-TupSrc == {TTup(<<TList(TNum), TList(TNum)>>), TTup(<<TObj([a |-> TStr])>>), TTup(<<TObj([a |-> TNum]), TObj([a |-> TNum])>>), TTup(<<TTup(<<TNum, TStr>>)>>)}
+TupSrc == {TTup(<<TList(TNum), TList(TNum)>>), TTup(<<TObj([a |-> TStr])>>), TTup(<<TObj([a |-> TNum]), TObj([a |-> TNum])>>), TTup(<<TTup(<<TNum, TStr>>)>>),
+           \* tuples / objects whose members mix a collection kind with its structural look-alike (lists with tuples, maps with objects)
+           TTup(<<TList(TStr), TTup(<<TStr, TStr>>)>>), TTup(<<TTup(<<TNum>>), TList(TNum)>>), TTup(<<TMap(TStr), TObj([a |-> TStr])>>),
+           TObj([a |-> TMap(TNum), b |-> TObj([a |-> TNum])])}
 SrcTypes == (IF Thorough THEN VT \cup {TList(TDyn), TTup(<<TDyn>>)} ELSE PrimTypes \cup VT1 \cup TakeN(VT2, 8)) \cup TupSrc
 \* values: known / null, typed unknowns (refined), nested unknown / null / marked members, DynamicVal, typed-dynamic null
 ValsOf(t) == TakeN(AllVals(t), IF Thorough THEN 16 ELSE 8) \cup UnkVals(t)
